@@ -20,6 +20,59 @@ def new_literals(gen_inv, pinned_inv):
     g, p = lits(gen_inv), lits(pinned_inv)
     return sorted(set(n for (mod, n), c in g.items() if c > p.get((mod, n), 0)))
 
+def _items(path):
+    try: s = open(path).read()
+    except FileNotFoundError: return {}
+    m = re.search(r'def decisionBudget[^\[]*\[(.*?)\]\s*\n\s*\n', s, re.S)
+    out = {}
+    for mod, item, n in re.findall(r'\("(\w+)", "((?:[^"\\]|\\.)*)", (\d+)\)', m.group(1) if m else ''):
+        out[(mod, item)] = int(n)
+    return out
+
+def new_texts(gen_inv, pinned_inv):
+    """string and character literals that are new (or more frequent) in the source"""
+    g, p = _items(gen_inv), _items(pinned_inv)
+    def un(x): return x.encode().decode('unicode_escape') if '\\' in x else x
+    strs = [un(i[4:]) for (mod, i), c in g.items() if i.startswith('str:') and c > p.get((mod, i), 0)]
+    chrs = [un(i[4:]) for (mod, i), c in g.items() if i.startswith('chr:') and c > p.get((mod, i), 0)]
+    return sorted(set(strs)), sorted(set(chrs))
+
+def text_candidates(strs, chrs, cap=400):
+    strs = strs[:8]; chrs = chrs[:4]
+    base = list(strs)
+    for a in strs:
+        for b in strs:
+            if a != b: base += [a + b, a + ' ' + b, a + 'x' + b, a + 'eu1' + b]
+    out = []
+    for t in base:
+        out.append(t)
+        for c in chrs: out += [t + c, t + c + 'é', c + t, t + c + c]
+    seen = set(); res = []
+    for t in out:
+        if t not in seen and len(t.encode()) < 200: seen.add(t); res.append(t)
+    return res[:cap]
+
+def text_ops(strs, chrs):
+    """inputs in which a text built from literals new in the source is a content type, a text label (alone, repeated), an issuer /
+    subject / audience beside large timestamps, a claim name, a key type, and — as bytes — a key id or a signature."""
+    ops = []; seen = set()
+    def add(t, hx, why):
+        op = 'dec %s b%s' % (t, hx)
+        if op not in seen: seen.add(op); ops.append(mk(op, k='magic:' + why))
+    for t in text_candidates(strs, chrs):
+        b = t.encode(); ts = (refcbor.head(3, len(b)) + b).hex(); bs = (refcbor.head(2, len(b)) + b).hex()
+        add('Header', 'a103' + ts, 'text-content-type'); add('Header', 'a1' + ts + '00', 'text-label'); add('CoseSign1', '8440a103' + ts + 'f640', 'text-content-type')
+        add('CoseSign1', '84' + refcbor.head(2, len(bytes.fromhex('a103' + ts))).hex() + 'a103' + ts + 'a0f640', 'text-content-type')
+        for v1, v2 in (('00', '01'), ('420000', '4100'), ('4100', '40'), ('f6', 'f6'), ('40', '40')):
+            add('Header', 'a2' + ts + v1 + ts + v2, 'text-label-repeated'); add('CoseKey', 'a30101' + ts + v1 + ts + v2, 'text-label-repeated'); add('ClaimsSet', 'a2' + ts + v1 + ts + v2, 'text-label-repeated')
+            add('CoseSign1', '84' + refcbor.head(2, len(bytes.fromhex('a2' + ts + v1 + ts + v2))).hex() + 'a2' + ts + v1 + ts + v2 + 'a0f640', 'text-label-repeated')
+        for k in ('01', '02', '03'):
+            add('ClaimsSet', 'a4' + k + ts + '041b0000018bcfe74a40051a5610d9f0061a5610da27', 'text-claim'); add('ClaimsSet', 'a1' + k + ts, 'text-claim')
+        add('ClaimsSet', 'a1' + ts + '00', 'text-claim-name'); add('CoseKey', 'a101' + ts, 'text-kty'); add('CoseKey', 'a20101' + ts + '00', 'text-label')
+        add('Header', 'a104' + bs, 'bytes'); add('CoseSign1', '8440a0f6' + bs, 'bytes'); add('CoseSign', '8440a0f6818340a0' + bs, 'bytes'); add('CoseKey', 'a2010102' + bs, 'bytes')
+        add('CoseKey', 'a4010220012158' + '%02x' % len(b) + b.hex() if len(b) < 256 and len(b) > 23 else 'a10101', 'bytes')
+    return ops
+
 I = lambda x: ('int', x); B = lambda b: ('bytes', b); Tx = lambda b: ('text', b)
 def enc(v): return refcbor.encode(v).hex()
 
